@@ -91,6 +91,21 @@ def unique_tag_simple_defs(scn):
             if len(v) == 1 and isinstance(v[0], int) and t is not None}
 
 
+def shared_tag_simple_defs(scn):
+    """ tags carried by SEVERAL registered simple searches (and by nothing else): tag -> defs """
+    tags = {}
+    regd = {r[0] for r in scn['regs']}
+    for i in sorted(regd):
+        d = scn['defs'][i]
+        if d['type'] == 'simple':
+            tags.setdefault(d.get('tag'), []).append(i)
+        else:
+            for sfx in ('-start', '-body', '-end'):
+                tags.setdefault(d['tag'] + sfx, []).append(('seq', i))
+    return {t: v for t, v in tags.items()
+            if len(v) > 1 and all(isinstance(x, int) for x in v) and t is not None}
+
+
 def spec_seq_view(item, mobs):
     """ {def index: [[(role, ln, [values])...] per section]} from the Lean spec layer """
     intern = S.Interner()
